@@ -269,6 +269,18 @@ func genPlan(rng *rand.Rand, lane string) plan {
 		p.Ops = append(p.Ops, genGroup(rng, size, atStart, p.Batch))
 	}
 	p.Ops = append(p.Ops, genProgress(rng, 2+rng.Intn(2))...)
+	if rng.Intn(3) == 0 {
+		// a consumer that lags: it stops reading while new heads arrive, the connection drops and more heads arrive, then reads
+		// again (StreamLogs hands entries over an unbuffered channel, so the client waits for its consumer)
+		at := rng.Intn(len(p.Ops) + 1)
+		if at == 0 && len(p.Ops) > 0 && p.Ops[0].Kind == "group" && p.Ops[0].AtStart {
+			at = 1 // the failures of a start group are armed before StreamLogs is called: nothing may reconnect before it
+		}
+		lag := op{Kind: "lag", Delta: 1 + rng.Intn(5), Delta2: 1 + rng.Intn(5), Each: rng.Intn(2) == 0}
+		ops := append([]op{}, p.Ops[:at]...)
+		ops = append(ops, lag)
+		p.Ops = append(ops, p.Ops[at:]...)
+	}
 	return p
 }
 
